@@ -46,7 +46,7 @@ NoBlk == [on |-> FALSE, base |-> 0, n1 |-> 0, n2 |-> 0, p1 |-> 0, p2 |-> 0, ins1
 TInit == Init /\ l = 1 /\ blk = NoBlk /\ acc = NoMsgs /\ TLCSet(1, 0)
 
 POf(r) == [c |-> r.c, pl |-> r.pl, h |-> r.h, ad |-> r.ad, amt |-> r.amt, tot |-> r.tot, exp |-> r.exp,
-           set |-> r.set, good |-> r.good = 1, cs |-> r.cs = 1]
+           set |-> r.set, good |-> r.good = 1, cs |-> r.cs = 1, ma |-> r.ma]
 
 \* ---- recorded vs model ----------------------------------------------------
 WhyOK(lst, r) == r.why = lst.why \/ (lst.alt # "" /\ r.why = lst.alt)
@@ -69,9 +69,10 @@ Match(lst, i, f, msgs, r) == ResOK(lst, r) /\ HodlOK(msgs, r) /\ InvOK(i, r) /\ 
 Is(a) == ~blk.on /\ l <= Len(Trace) /\ Trace[l].a = a /\ Trace[l].th = 0 /\ l' = l + 1
 Seql == UNCHANGED <<blk, acc>> /\ (Guarded => Match(last', inv', htlc', last'.hodl, Trace[l]))
 
-\* the event of record r (a replay of a circuit key that is on no invoice is a fresh evaluation)
+\* the event of record r (a replay of a circuit key that is on no invoice is a fresh evaluation); cs / ma of a
+\* Replay record are what the interceptor client answered to THAT call
 Event(r) == \/ r.a \in {"Notify", "Replay"} /\ htlc[r.c] = NoHtlc /\ height = r.ht /\ Notify(POf(r))
-            \/ r.a = "Replay" /\ htlc[r.c] # NoHtlc /\ height = r.ht /\ Replay(r.c)
+            \/ r.a = "Replay" /\ htlc[r.c] # NoHtlc /\ height = r.ht /\ Replay(r.c, [cs |-> r.cs = 1, ma |-> r.ma])
 
 Reset == /\ Is("Reset")
          /\ kinds' = <<Trace[l].k1, Trace[l].k2>>
@@ -105,7 +106,7 @@ Link(t) ==
            /\ blk' = IF t = 1 THEN [blk EXCEPT !.ins1 = TRUE] ELSE [blk EXCEPT !.ins2 = TRUE]
            /\ UNCHANGED <<kinds, kp, htlc, sub, timer, setOwner, height, now, pend, acc, l>>
         \/ /\ IF ks /\ ins
-                THEN height = r.ht /\ Commit(LockedOut(inv, p), "Notify", r.c, 0) /\ UNCHANGED <<height, now, pend>>
+                THEN height = r.ht /\ Commit(LockedOut(inv, Eff(p)), "Notify", r.c, 0) /\ UNCHANGED <<height, now, pend>>
                 ELSE Event(r)
            /\ ResOK(last', r)
            /\ acc' = [d \in C |-> IF last'.hodl[d].kd # "none" THEN last'.hodl[d] ELSE acc[d]]
